@@ -261,6 +261,15 @@ def wellformed(pkg) -> List[Tuple[str, str]]:
         for p in e.ports:
             if p.signal not in sw:
                 problems.append(("port-undeclared-signal", f"ext module {key}: port '{p.signal}' names no declared signal"))
+        # an external module is a module header: a name, and uniquely named ports / signals of positive width
+        if not e.name.name:
+            problems.append(("ext-module-unnamed", f"external module {key} has no name"))
+        for what, names in (("port", [p.signal for p in e.ports]), ("signal", [s.name for s in e.signals])):
+            if len(set(names)) != len(names) or "" in names:
+                problems.append((f"dup-ext-{what}-name", f"ext module {key}: {what} names {names} repeat (or are empty)"))
+        for s in e.signals:
+            if s.width < 1:
+                problems.append(("bad-width", f"ext module {key}: signal {s.name} width {s.width}"))
     defined = set()
     for m in pkg.modules:
         if m.name in defined:
